@@ -228,11 +228,11 @@ def check_config(config: dict) -> None:
             f"N_interfaces {n_ens} > N_shooting_moves {n_sh_moves}!"
         )
 
-    if intf_cap and intf_cap > intf[-1]:
+    if intf_cap is not False and intf_cap > intf[-1]:
         raise TOMLConfigError(
             f"Interface_cap {intf_cap} > interface[-1]={intf[-1]}"
         )
-    if intf_cap and intf_cap < intf[0]:
+    if intf_cap is not False and intf_cap < intf[0]:
         raise TOMLConfigError(
             f"Interface_cap {intf_cap} < interface[-2]={intf[-2]}"
         )
